@@ -17,7 +17,7 @@ theorem mandatory_mono {a1 a2 : Answer} {k : Coercer → Step}
   | ok c => rw [h (by simp)]
   | notFound => rw [h (by simp)]
 
-theorem planFields_mono {r1 r2 : Ty → Ty → Answer} (hext : Extends r1 r2) (policy : Policy)
+theorem planFields_mono {r1 r2 : Ty → Ty → Answer} (hext : Extends r1 r2) (policy : Field → Bool)
     (sfs : List Field) : ∀ ds, planFields r1 policy sfs ds ≠ none →
       planFields r2 policy sfs ds = planFields r1 policy sfs ds
   | [], _ => by simp [planFields]
@@ -58,11 +58,11 @@ theorem step_mono {r1 r2 : Ty → Ty → Answer} (hext : Extends r1 r2) (cfg : C
     simp only [step, stepModel] at hne ⊢
     split
     · split
-      · rename_i sfs dfs hss hds
+      · rename_i sc sa dc da _ _ sfs dfs hss hds
         simp only [hss, hds] at hne
-        have hrec : planFields r1 cfg.policy sfs dfs ≠ none := by
+        have hrec : planFields r1 (cfg.policy.allowed dc) sfs dfs ≠ none := by
           intro hc; rw [hc] at hne; simp at hne
-        rw [planFields_mono hext cfg.policy sfs dfs hrec]
+        rw [planFields_mono hext (cfg.policy.allowed dc) sfs dfs hrec]
       · rfl
     · rfl
   | iterable =>
